@@ -45,14 +45,14 @@ def run_plain(spec, ctx):
 
     classes = {"E0": E0, "E1": E1, "E2": E2, "E3": E3, "Exception": Exception, "ValueError": ValueError}
     par = st.fixed_dictionaries({
-        "max_attempts": st.integers(1, 8),
-        "sleep": st.one_of(st.sampled_from([0, 0.25, 1.0, 2.5]), st.floats(0, 100, allow_nan=False)),
-        "exponent": st.one_of(st.sampled_from([0.5, 1.0, 1.5, 2.0, 3.0]), st.floats(0.1, 5, allow_nan=False)),
-        "max_sleep": st.one_of(st.sampled_from([0.5, 10, 120]), st.floats(0, 1000, allow_nan=False)),
+        "max_attempts": st.one_of(st.integers(1, 8), st.sampled_from([40, 100, 1000])),
+        "sleep": st.one_of(st.sampled_from([0, 0.25, 1.0, 2.5, 0.0005]), st.floats(0, 100, allow_nan=False)),
+        "exponent": st.one_of(st.sampled_from([0.5, 1.0, 1.5, 2.0, 3.0, 1.05, 1.2]), st.floats(0.1, 5, allow_nan=False)),
+        "max_sleep": st.one_of(st.sampled_from([0.5, 10, 120, 10 ** 6]), st.floats(0, 1000, allow_nan=False)),
         "base": st.one_of(st.sampled_from(["E0", "E1", "E2", "E3", "Exception", "ValueError"]),
                           st.lists(st.sampled_from(["E0", "E1", "E2", "E3", "ValueError"]), min_size=0, max_size=3)),
         "omit": st.sets(st.sampled_from(["max_attempts", "sleep", "exponent", "max_sleep", "base"])),
-        "attempt": st.integers(1, 9),
+        "attempt": st.one_of(st.integers(1, 9), st.integers(10, 80), st.sampled_from([31, 32, 33, 34, 35, 63, 64, 65, 127, 128, 129])),  # (long retry series too)
         "outcome": st.sampled_from(["E0", "E1", "E2", "E3", "value", "falsy-value"]),
     })
 
@@ -315,6 +315,16 @@ def catalog():
         out["zero-delay/" + bname] = {"prog": prog(base, [(fail2, P0)], [[["submit", "ex", "g0", {"script": [["tag"]], "retry_policy": P0}]]])}
         out["zero-delay-two/" + bname] = {"prog": prog(base, [(fail2, P0), ([["raise", "E0"], ["tag"]], P0)])}
         out["backoff/" + bname] = {"prog": prog(base, [(fail2, P5), ([["raise", "E0"], ["tag"]], PS)])}
+    # three (four) submissions waiting for their retry at once, due in the order low, high, middle(, lower): the submit thread
+    # must wake for the EARLIEST of them each time
+    once = [["raise", "E0"], ["tag"]]
+
+    def sp(d):
+        return {"type": "script", "should": [True, False], "sleep": [d]}
+    wide = {"kind": "pool", "workers": 4}
+    out["waiting/low-high-middle"] = {"prog": prog(wide, [(once, sp(0.5)), (once, sp(2.0)), (once, sp(1.25))])}
+    out["waiting/high-low-middle-lower"] = {"prog": prog(wide, [(once, sp(2.0)), (once, sp(1.0)), (once, sp(1.5)), (once, sp(0.75))])}
+    out["waiting/descending"] = {"prog": prog(wide, [(once, sp(2.0)), (once, sp(1.5)), (once, sp(1.0)), (once, sp(0.5))])}
     return out
 
 
